@@ -132,7 +132,12 @@ def write_evidence(prop, tier, seed, col, known_matched, violations,
                    extra=None, path=None):
     obs = [o for o in col.obs if o.status != INFO]
     resolved = [o for o in obs if o.status in (DISCHARGED, VIOLATED)]
-    distinct = {o.key() + (o.construct,) for o in resolved}
+    # book-keeping obligations (scope scans, positive controls, instance
+    # counts) are evaluated but are not counted as non-trivial cases
+    distinct = {o.key() + (o.construct,) for o in resolved
+                if not (o.func or '').startswith('<') and
+                not (o.role or '').endswith(('scan', 'instances',
+                                             'positive-control'))}
     by_rule = col.by_rule()
     samples = []
     seen_rules = set()
@@ -160,8 +165,11 @@ def write_evidence(prop, tier, seed, col, known_matched, violations,
         'distinct_nontrivial': len(distinct),
         'rule': 'one obligation per (rule, function, role) instance found in '
                 'the current source; non-trivial = every participant '
-                'resolved (status discharged or violated); distinct by '
-                '(rule, file, function, role, construct)',
+                'resolved (status discharged or violated) and the '
+                'obligation concerns a construct of the repository (scope '
+                'scans, instance counts and embedded positive controls are '
+                'evaluated but not counted); distinct by (rule, file, '
+                'function, role, construct)',
         'samples': samples,
         'by_rule': by_rule,
         'rules': rule_texts,
@@ -175,7 +183,11 @@ def write_evidence(prop, tier, seed, col, known_matched, violations,
         'checker_cmd': '/venv/bin/python sa/run.py %s --tier %s'
                        % (prop, tier),
         'trusted_base': trusted,
-        'exhaustive': True,
+        'exhaustive': False,
+        'exhaustive_note': 'each obligation is decided over every path of '
+                           'the function it concerns (no sampling); the '
+                           'property as a behaviour is not exhausted: only '
+                           'the structural clauses named by the rules are',
         'notes': col.notes,
     }
     if extra:
